@@ -102,6 +102,12 @@ func exploreScn(c *harness.Ctx, prop string, s *Scn) bool {
 	x.Run = func(ch vrt.Chooser, trace bool) *vrt.Result {
 		sr := s.Run(ch, trace)
 		if sr.R.Violation != nil {
+			if id := c.KnownID(sr.R.Violation.Sig); id != "" {
+				// a recorded known finding: count it and keep exploring this scenario
+				c.Res.Known[id]++
+				sr.R.Violation = nil
+				return sr.R
+			}
 			lastDetails = sr.Details
 		}
 		return sr.R
